@@ -183,8 +183,9 @@ def scenario(env, api, src, data, idx):
     """Run one API scenario.  -> list of (kind, message) problems"""
     probs = []
     env.reset_handles()   # whatever an earlier (possibly not judged) scenario left behind is not this scenario's business
-    stream = io.BytesIO(data) if src == 'stream' else None
-    source = stream if src == 'stream' else env.path
+    from ..streams import RawBytesStream
+    stream = io.BytesIO(data) if src == 'stream' else (RawBytesStream(data) if src == 'rawstream' else None)
+    source = stream if stream is not None else env.path
     H.signal.setitimer(H.signal.ITIMER_REAL, 3.0)
     try:
         if api in ('read', 'read_metadata'):
@@ -349,9 +350,11 @@ def run_base(item):
             res['counters']['faults'] += 1
             for withidx in (False, True):
                 env.put(fdata, idx if withidx else None)
-                for src in ('path', 'stream'):
-                    if src == 'stream' and withidx:
+                for src in ('path', 'stream', 'rawstream'):
+                    if src != 'path' and withidx:
                         continue
+                    if src == 'rawstream' and fault[0] not in ('none', 'cut'):
+                        continue   # the unbuffered caller stream: intact and cut files (overwrites are explored with the other two)
                     for api in APIS:
                         res['counters']['runs'] += 1
                         res['counters']['nontrivial'] += 1 if fault[0] != 'none' else 0
